@@ -165,6 +165,7 @@ def make_case(ctx, g):
             if again != t0:
                 fails.append(Failure("oracle", None, "%s export changed after other exporters (%s) ran" % (name, sorted(used)),
                                      {"ops": list(w.ops), "export": name, "sequence": sorted(used)}))
+    n_before_change = len(w.ops)
     if twin_world is not None and not fails and g.chance(0.3) and b.mutate_in_place([d]):
         # second chapter: the document is changed in place after it has been through the exporters; a document built afresh
         # by the same operations has never been exported: both must export alike (nothing remembered from before)
@@ -176,7 +177,7 @@ def make_case(ctx, g):
             if isinstance(a, str) and isinstance(b_, str) and a != b_:
                 fails.append(Failure("oracle", None, "%s export after an in-place change differs from the export of an identically "
                                      "built document that was never exported before" % name,
-                                     {"ops": list(w.ops), "export": name, "sequence": sorted(used)}))
+                                     {"ops": list(w.ops), "export": name, "sequence": sorted(used), "exported_after": n_before_change}))
     if twin_world is not None:
         w.obs(d)      # (after a mutation by an exporter the model's view of the document is no longer comparable)
     ctx.evaluations += 1
@@ -197,6 +198,23 @@ def oracle_only(ctx):
 
 
 def replay(ctx, case):
+    if "exported_after" in case:
+        # a history: build, run the exporters, change in place, export; against the same document never exported before
+        k = case["exported_after"]
+        ops = [o for o in case["ops"] if o["op"] != "obs"]
+        k = len([o for o in case["ops"][:k] if o["op"] != "obs"])
+        w = replay_ops(ops[:k])
+        d = next(c for c, o in w.conts.items() if o.is_document())
+        g = Gen(0)
+        for name in case.get("sequence", []):
+            run_export(g, w.conts[d], name, None)
+        replay_ops(ops[k:], w)
+        fresh = replay_ops(ops).conts[d]
+        a, b_ = run_export(g, w.conts[d], case["export"]), run_export(g, fresh, case["export"])
+        if isinstance(a, str) and isinstance(b_, str) and a != b_:
+            return [Failure("oracle", case.get("signature"), "%s export after an in-place change differs from the export of an identically "
+                            "built document that was never exported before" % case["export"], case)]
+        return []
     w = replay_ops(case["ops"])
     d = next(c for c, o in w.conts.items() if o.is_document())
     doc = w.conts[d]
